@@ -927,11 +927,11 @@ fn boundary() -> Vec<i64>
 
 fn literal(rng: &mut Rng) -> i64
 {
-	match rng.below(12)
+	match rng.below(20)
 	{
 		0 => 0,
 		1 => if rng.chance(1, 2) {1} else {-1},
-		2 | 3 =>
+		2 | 3 | 4 =>
 		{
 			let k = rng.below(63);
 			let p = 1i64 << k;
@@ -939,7 +939,8 @@ fn literal(rng: &mut Rng) -> i64
 			let v = p + d;
 			if rng.chance(1, 3) {-v} else {v}
 		},
-		5 => if rng.chance(1, 3) {*rng.pick(&[i64::MAX, i64::MIN, i64::MAX - 1, i64::MIN + 1])} else {rng.range(0, 66)},
+		5 => *rng.pick(&[i64::MAX, i64::MIN, i64::MAX - 1, i64::MIN + 1]),
+		6 | 7 => rng.range(0, 66),
 		_ => rng.range(-9, 9),
 	}
 }
@@ -956,7 +957,8 @@ fn gen_closed(rng: &mut Rng, depth: u32) -> T
 		{
 			// shift by a literal count
 			let op = if rng.chance(1, 2) {SHL} else {SHR};
-			bin(op, gen_closed(rng, depth - 1), T::C(if rng.chance(1, 8) {literal(rng)} else {rng.range(0, 63)}))
+			let operand = if rng.chance(1, 2) {T::C(rng.range(0, 1 << 20))} else {gen_closed(rng, depth - 1)};
+			bin(op, operand, T::C(if rng.chance(1, 8) {literal(rng)} else {rng.range(0, 40)}))
 		},
 		_ =>
 		{
